@@ -59,6 +59,9 @@ class CacheHooks(Hooks):
             mode = args[0] if args else True
             store["training"] = mode
             return UNK
+        if name == "eval":
+            store["training"] = False
+            return UNK
         if name in ("_apply", "_load_from_state_dict", "load_state_dict", "to", "double", "float", "half", "cuda", "cpu", "type"):
             params_changed(store)
             return UNK
@@ -74,6 +77,8 @@ def params_changed(store):
 EVENTS = [
     ("train", {"mode": True}),
     ("eval", {"mode": False}),
+    ("train_of_enclosing_module", {"mode": True}),
+    ("eval_of_enclosing_module", {"mode": False}),
     ("use_cache(True)", {"mode": True}),
     ("use_cache(False)", {"mode": False}),
     ("forward", {}),
@@ -98,7 +103,7 @@ def typestate_rule(ctx):
     for cls in classes:
         hooks = CacheHooks(fields)
         ex = StoreExec(p, cls, tracked, hooks)
-        for m in ("forward", "inverse", "train", "use_cache"):
+        for m in ("forward", "inverse", "use_cache"):
             if cls.lookup_method(m) is None:
                 raise AnalysisIncomplete("%s.%s missing" % (cls.name, m))
         problems_at = []
@@ -107,8 +112,25 @@ def typestate_rule(ctx):
             name, args = ev
             hooks.problems = []
             outs = []
-            if name in ("train", "eval"):
-                outs = ex.run_method("train", dict(args), s)
+            if name in ("train", "eval", "train_of_enclosing_module", "eval_of_enclosing_module"):
+                # nn.Module.eval() is self.train(False); a parent's train(mode) / eval() calls child.train(mode)
+                # on its sub-modules, never child.eval(): an `eval` override runs only for a direct .eval()
+                mode = name.startswith("train")
+                direct = not name.endswith("_of_enclosing_module")
+                if direct and not mode and cls.lookup_method("eval") is not None:
+                    outs = ex.run_method("eval", {}, s)
+                    # torch's eval() goes on to self.train(False)
+                    if cls.lookup_method("train") is not None:
+                        nxt = []
+                        for o in outs:
+                            nxt.extend(ex.run_method("train", {"mode": False}, o.store) if o.kind == "return" else [o])
+                        outs = nxt
+                elif cls.lookup_method("train") is not None:
+                    outs = ex.run_method("train", {"mode": mode}, s)
+                else:
+                    s2 = dict(s)
+                    s2["training"] = mode
+                    outs = [type("O", (), {"store": s2, "kind": "return", "value": None})()]
             elif name.startswith("use_cache"):
                 outs = ex.run_method("use_cache", dict(args), s)
             elif name in ("forward", "inverse"):
@@ -354,7 +376,7 @@ def cache_use_rule(ctx):
         for pp in cpaths:
             atoms = set()
             for et, raw, pol in pp.conds:
-                atoms |= cond_atoms(raw, pol)
+                atoms |= cond_atoms(et, pol)
             if "not(self.training)" not in atoms or "self.using_cache" not in atoms:
                 res.fail(Finding("CACHE-USE", fi.module, fi.qualname, pp.ret_node, "a result that reads the cache is reachable without `not self.training and self.using_cache` (path condition %s): training-mode or flag-off calls would use the memo" % sorted(atoms), construct="guard of the cached %s" % direction))
             else:
